@@ -28,6 +28,9 @@
 (*                      resolve to the source digest, or an object of the  *)
 (*                      required closure (Req below) is absent or corrupt, *)
 (*                      or a required digest tag is missing                *)
+(*  C03:referrer-unlisted  result ok, target without referrers API: a      *)
+(*                      referrer written by this copy is not named by the  *)
+(*                      index behind its subject's fall-back tag           *)
 (*  C04:child-missing   in some observed target state a manifest written   *)
 (*                      by this copy lacks a (selected, hosted) child      *)
 (*  C04:tag-other       the requested tag resolves to something that is    *)
@@ -261,6 +264,17 @@ C14Checks(s) ==
           "C14:retag">>,
         <<"C14", ident /\ ~On(hdr.force) /\ (nWrites > 0 \/ s # init0), "C14:identical">> >>
 
+\* A target without referrers API lists referrers through the fall-back tag of the subject, which the client
+\* maintains: after a successful copy with referrers every referrer manifest this copy wrote is named by the
+\* index its subject's fall-back tag resolves to (else it is unreachable from the subject at the target).
+Unlisted(s, w) ==
+  {q \in w : \E r \in refs : r.r = Base(q) /\ r.match = 1 /\
+                LET d == TagOf(s, Pfx(q) \o ("fb:" \o r.s))
+                IN d = "-" \/ ~(\E e \in edges : e.p = Base(d) /\ e.c = r.r)}
+ListingChecks(ok, s, w) ==
+  << <<"C03", ok /\ FaultFree /\ On(hdr.referrers) /\ hdr.refapi_tgt = 0 /\ Unlisted(s, w) # {},
+       "C03:referrer-unlisted">> >>
+
 \* "Never downloads from the source a blob that already exists in the target repository" also holds
 \* when the only disturbances were transient, retryable faults below the retry limit (hdr.transient):
 \* they have to be absorbed without changing what is transferred.
@@ -278,6 +292,7 @@ PResult(ok, s) ==
      /\ bad' = First(StoreChecks(s, w, new # {}) \o
                      << <<"C03", ok = 1 /\ FaultFree /\ (Req(init0, TRUE) \cap s.x) # {}, "C03:corrupt">>,
                         <<"C03", ok = 1 /\ FaultFree /\ ~Complete(s, init0, TRUE), "C03:incomplete">>,
+                        ListingChecks(ok = 1, s, w)[1],
                         <<"C04", ok = 0 /\ Tagged /\ TagOf(s, "T") \notin {TagOf(init0, "T"), Root},
                           "C04:tag-moved-on-failure">> >>)
      /\ Same(<<hdr, mkind, edges, refs, dtags, alias, init0, gets, commits, declined, nBlobReq, nManPut, nWrites>>)
@@ -291,6 +306,7 @@ PFinal(s) ==
      /\ tagMoved' = (tagMoved \/ Moved(s))
      /\ bad' = First(StoreChecks(s, w, new # {}) \o
                      << <<"C03", res = "ok" /\ FaultFree /\ ~Complete(s, init0, TRUE), "C03:incomplete">> >> \o
+                     ListingChecks(res = "ok", s, w) \o
                      (IF hdr.reftgt = 1 THEN <<>>          \* (two target repositories: C14's counters are per repository)
                       ELSE IF res = "ok" /\ FaultFree THEN C14Checks(s)
                       ELSE IF res = "ok" /\ Transient THEN C14TChecks(s) ELSE <<>>))
